@@ -1,0 +1,19 @@
+//go:build verif
+
+// Contracts for the exovc verifier (/verif). Comment-only: with the tag off this file is not part
+// of the package, with the tag on it declares nothing.
+package types
+
+// C20 (at the end of a task's statistical period every opted-in operator that handed in nothing is listed as a
+// non-signer): what is left of the first list after the second has been taken out is ALWAYS added to the result - the
+// third loop is reached on every path, whatever the lengths of the two lists.
+//@ func Difference
+//@   flag noframe
+//@   flag pure=Strings
+//@   ensures[C20.diff.rest] defined(loop3_different)
+//@ loop #1
+//@   invariant true
+//@ loop #2
+//@   invariant true
+//@ loop #3
+//@   invariant true
